@@ -22,7 +22,9 @@ for d in sys.argv[1:]:
                 continue
             r = json.loads(line)
             scope = r.get("scope") or vlib.engine_scope(r.get("api", ""))
-            gid = "KF-%s-%s-%s-%s" % (r["prop"], scope or "api", (r.get("strategy") or r.get("cfg") or "any").replace(" ", ""), r.get("mode") or "first")
+            import re as _re
+            site = r.get("strategy") or _re.sub(r"[^A-Za-z0-9.]+", "_", r.get("api", "any").split("[")[0].split("(")[0])[:40]
+            gid = "KF-%s-%s-%s-%s" % (r["prop"], scope or "api", site, r.get("mode") or "first")
             k = vlib.failure_key(r)
             groups[gid].add(vlib.key_hash(k))
             count[gid] += 1
